@@ -235,6 +235,16 @@ def identifier_text_forms(ctx, rr, only=None):
             rr.anchor_missing(name)
             continue
         args = sites_containing(b, "Argument", "::new_")
+        direct = [bb for bb in sites_containing(b, "Formatter", "::write_str") + sites_containing(b, "Formatter", "::pad")] if not args else []
+        if len(direct) == 1:
+            # `f.write_str(&text)`: the text handed over is the whole output
+            a = arg_origin(ctx, b, direct[0], 1)
+            calls = list(og.calls_in(a))
+            if ("param", b.id, 1) in list(og.walk(a)) and calls and all(any(w in c for w in _WHOLE_VALUE + ("deref", "as_str", "to_string")) for c in calls) and any("hex::encode" in c or "to_lower_hex_string" in c or "to_hex" in c for c in calls):
+                rr.ok("%s: text form = hex of the whole value" % ty, sample={"rule": rr.rule, "type": ty, "written": og.show(a)[:160]})
+            else:
+                rr.fail("identifier-text-form:%s" % ty, "Display of %s writes `%s`, which is not the hex encoding of all its %d bytes. The text is what `get appointment <locator>` is signed over, what URLs / JSON carry and what from_hex parses back" % (ty, og.show(a)[:120], nbytes), where=b.span)
+            continue
         if len(args) != 1:
             rr.fail("identifier-text-form:%s" % ty, "Display of %s formats %d values; its text form is one hex string of %d digits" % (ty, len(args), 2 * nbytes), where=b.span)
             continue
